@@ -188,6 +188,13 @@ def run(case):
         m_model = compare("single_axis.create_mask", model.create_mask(R, shape))
         if m_model is not None and 0 < m_model.sum() < m_model.size and not ident:
             case.nontrivial((shape, tuple(np.round(cb["quat"], 4)), rg, axis))
+        if m_model is not None:
+            # apply_mask multiplies a spectrum by that very mask
+            spec = (np.arange(int(np.prod(shape)), dtype=np.float32).reshape(shape) % 7) + 1
+            applied = np.asarray(model.apply_mask(R, spec))
+            case.check(applied.shape == spec.shape and np.array_equal(applied != 0, m_model.astype(bool)) and
+                       np.allclose(applied[m_model.astype(bool)], spec[m_model.astype(bool)]),
+                       "apply_mask is not multiplication by create_mask", None, shape=shape, range=rg, axis=axis)
         if axis == "y":
             m_b = compare("Backend.missing_wedge_mask", xp.missing_wedge_mask(R, rg, shape))
             m_u = compare("_utils.missing_wedge_mask", _utils.missing_wedge_mask(R, rg, shape))
